@@ -10,7 +10,7 @@
    fields of [f] / [b] and universally quantified. *)
 From Coq Require Import List NArith Bool.
 From Herc Require Import TreeDiff.Model TreeDiff.ChangesProofs TreeDiff.FilterProofs TreeDiff.CacheProofs
-  TreeDiff.ReplayProofs TreeDiff.FixedFilter TreeDiff.StrictProofs.
+  TreeDiff.ReplayProofs TreeDiff.FixedFilter TreeDiff.StrictProofs TreeDiff.ReuseProofs.
 Import ListNotations.
 Open Scope N_scope.
 
@@ -40,6 +40,40 @@ Theorem C20_right_tree : forall f commits ops i c dt br prev s' cs,
   exists p, In p commits /\ In (cm_hash p) (cm_parents c) /\ cm_tree p = prev.
 Proof. exact replay_right_tree. Qed.
 Print Assumptions C20_right_tree.
+
+(* ---- re-use: a re-initialised item is as good as new - any commit (an unrelated root, the first commit of a second
+        analysis) is accepted and reported as a first commit.  Finding F24 (repaired by 3598ee8): Initialize used to keep
+        previousCommit and such a commit was refused ---- *)
+
+Theorem C20_initialize_fresh : forall s, td_initialize s = td_zero.
+Proof. exact initialize_fresh. Qed.
+Print Assumptions C20_initialize_fresh.
+
+Theorem C20_initialize_never_refuses : forall f s c dt, td_consume f (td_initialize s) c dt <> Err EParent.
+Proof. exact initialize_never_refuses. Qed.
+Print Assumptions C20_initialize_never_refuses.
+
+Theorem C20_initialize_first_commit : forall f s c dt,
+  (forall e, In e (cm_tree c) -> is_submodule e = false -> f_has_blob f (e_hash e) = true) ->
+  tree_wfb (cm_tree c) = true -> f_vendor f [] = false ->
+  td_consume f (td_initialize s) c dt =
+    Ok (mkTD (Some (cm_tree c)) (cm_hash c), map ins (restrict f (filter is_file (cm_tree c)))).
+Proof. exact initialize_first_commit. Qed.
+Print Assumptions C20_initialize_first_commit.
+
+Theorem C20_initialize_refused_before_fix : forall f s c dt,
+  td_commit s <> 0 -> ~ In (td_commit s) (cm_parents c) ->
+  td_consume f (td_initialize_before_fix s) c dt = Err EParent.
+Proof. exact initialize_refused_before_fix. Qed.
+Print Assumptions C20_initialize_refused_before_fix.
+
+Example C20_example_reuse :
+  let f := mkF [] (fun _ => false) false (fun _ => true) true (fun _ _ => true) (fun _ => true) in
+  let s := mkTD (Some [mkE [97] 1 33188]) 7 in
+  let root := mkCommit 9 [] [mkE [98] 2 33188] in
+  td_consume f (td_initialize_before_fix s) root [] = Err EParent /\
+  td_consume f (td_initialize s) root [] = Ok (mkTD (Some [mkE [98] 2 33188]) 9, [ins (mkE [98] 2 33188)]).
+Proof. exact initialize_refused_before_fix_witness. Qed.
 
 (* ---- the validator is sound: accepted changes, applied strictly, turn the restricted previous file set
         into the restricted current file set ---- *)
